@@ -299,11 +299,11 @@ def rule_bounds(prog: Program, col: Collector) -> None:
     if pid == "C04" and not sam:
         raise AnchorMissing("no approximate (sam_apx_*) computer registered in BOUNDS")
 
-    ob.rule("B1", {"C01", "C04", "C08"}, "every write is set_lower/upper_bound(v, c) with c the loop variable of a loop over the UNKNOWN coalitions; no other mutator of the game is called", 2)
-    ob.rule("B2", {"C01", "C04", "C08"}, "for LB and for UB there is a loop over all UNKNOWN coalitions (unrestricted) that reaches the write on every path", 2)
-    ob.rule("B3", {"C01", "C02", "C08"}, "the first lower-bound loop iterates the unknown coalitions by increasing size", 1)
-    ob.rule("B4", {"C01", "C08", "C04"}, "in the first lower-bound phase every bound read is at proper non-empty sub-coalitions (final entries)", 1)
-    ob.rule("B5", {"C01", "C04", "C08"}, "every upper-bound loop starts after the last lower-bound loop has ended", 1)
+    ob.rule("B1", {"C01", "C04", "C08", "C07"}, "every write is set_lower/upper_bound(v, c) with c the loop variable of a loop over the UNKNOWN coalitions; no other mutator of the game is called", 2)
+    ob.rule("B2", {"C01", "C04", "C08", "C07"}, "for LB and for UB there is a loop over all UNKNOWN coalitions (unrestricted) that reaches the write on every path", 2)
+    ob.rule("B3", {"C01", "C02", "C08", "C07"}, "the first lower-bound loop iterates the unknown coalitions by increasing size", 1)
+    ob.rule("B4", {"C01", "C08", "C04", "C07"}, "in the first lower-bound phase every bound read is at proper non-empty sub-coalitions (final entries)", 1)
+    ob.rule("B5", {"C01", "C04", "C08", "C07"}, "every upper-bound loop starts after the last lower-bound loop has ended", 1)
     ob.rule("B6s", {"C01", "C02", "C04"}, "lower value = reduction over LB(P) + LB(c\\P): lower-bound columns, complement of the same P, no extra `initial` candidate", 1)
     ob.rule("B7s", {"C01", "C02", "C04"}, "upper value = reduction over KV(T) - LB(T\\c): T known strict supersets, lower-bound subtrahend, subtraction, no extra `initial` candidate", 1)
     ob.rule("B6s", {"C03", "C07", "C08"}, "lower value is the reduction over the splits only (no extra `initial` candidate)", 0)
@@ -335,7 +335,7 @@ def _check_computer(ob: _Ob, comp: Computer, is_sam: bool) -> None:
         raise AnalysisError(f"{fn}: no set_lower_bound/set_upper_bound call on the game parameter found")
     # ---- B1
     for ev in comp.other_mutations:
-        ob.check("B1", {"C01", "C04", "C08"}, False, ref.where(ev.node), fn,
+        ob.check("B1", {"C01", "C04", "C08", "C07"}, False, ref.where(ev.node), fn,
                  f"computer calls game.{ev.name}(...)", f"mutator:{ev.name}",
                  "a bound computer may only write bounds of unknown rows: writing a known row replaces v(S) by a bound")
     # stores through getter views
@@ -344,19 +344,19 @@ def _check_computer(ob: _Ob, comp: Computer, is_sam: bool) -> None:
         while isinstance(base, tuple) and base[0] == "index":
             base = base[1]
         if isinstance(base, tuple) and base[0] == "call" and base[1][0] == "attr" and base[1][1] == comp.game:
-            ob.und("B1", {"C01", "C04", "C08"}, ref.where(ev.node), fn,
+            ob.und("B1", {"C01", "C04", "C08", "C07"}, ref.where(ev.node), fn,
                    f"in-place store through game.{base[1][2]}() (vectorised redesign: not in the recognised idiom family)")
     for w in comp.writes:
         where = ref.where(w.ev.node)
         if w.loop_ev is None:
-            ob.check("B1", {"C01", "C04", "C08"}, False, where, fn, "write target is the loop variable",
+            ob.check("B1", {"C01", "C04", "C08", "C07"}, False, where, fn, "write target is the loop variable",
                      f"target:{w.col}", "a write to another row than the one being processed bypasses the unknown filter")
             continue
         lc = w.loop_coll
         if not isinstance(lc, Coll) or lc.unrecognised:
-            ob.und("B1", {"C01", "C04", "C08"}, where, fn, f"loop iterable not understood: {show_coll(lc)}")
+            ob.und("B1", {"C01", "C04", "C08", "C07"}, where, fn, f"loop iterable not understood: {show_coll(lc)}")
             continue
-        ob.check("B1", {"C01", "C04", "C08"}, lc.known is False, where, fn,
+        ob.check("B1", {"C01", "C04", "C08", "C07"}, lc.known is False, where, fn,
                  f"{w.col} write targets the loop variable of a loop over {lc.show()} (must be unknown-filtered)",
                  f"loop-not-unknown:{w.col}",
                  "a write to a known row replaces v(S) by a partition bound: the interval of a known coalition must be exactly its value")
@@ -374,13 +374,13 @@ def _check_computer(ob: _Ob, comp: Computer, is_sam: bool) -> None:
                         w1.cond_frames[0][1] == w2.cond_frames[0][1] and w1.cond_frames[0][2] != w2.cond_frames[0][2]:
                     both = True
         if ws and not full and cond_ws and both:
-            ob.und("B2", {"C01", "C04", "C08"}, where, fn, f"{colname} is written on both branches of a condition inside the loop (not in the recognised idiom family)")
+            ob.und("B2", {"C01", "C04", "C08", "C07"}, where, fn, f"{colname} is written on both branches of a condition inside the loop (not in the recognised idiom family)")
         elif ws and not full and cond_ws:
-            ob.check("B2", {"C01", "C04", "C08"}, False, ref.where(cond_ws[0].ev.node), fn,
+            ob.check("B2", {"C01", "C04", "C08", "C07"}, False, ref.where(cond_ws[0].ev.node), fn,
                      f"{colname}: the write is reached for every unknown coalition (it is conditional inside the loop body)", f"conditional-write:{colname}",
                      "an unknown row that is not rewritten keeps a bound of an earlier knowledge state (stale after un-reveal)")
         else:
-            ob.check("B2", {"C01", "C04", "C08"}, bool(full), where, fn,
+            ob.check("B2", {"C01", "C04", "C08", "C07"}, bool(full), where, fn,
                      f"{colname}: a loop over all unknown coalitions rewrites every unknown row"
                      + ("" if full else f" (found: {[show_coll(w.loop_coll) for w in ws]})"),
                      f"coverage:{colname}",
@@ -389,7 +389,7 @@ def _check_computer(ob: _Ob, comp: Computer, is_sam: bool) -> None:
         for w in full:
             early = [e for e in comp.ft.events if e.kind in ("break", "continue", "return", "raise")
                      and any(f[0] == "for" and f[1] == w.loop_uid for f in e.ctx) and e.seq < w.ev.seq]
-            ob.check("B2", {"C01", "C04", "C08"}, not early, ref.where((early[0] if early else w.ev).node), fn,
+            ob.check("B2", {"C01", "C04", "C08", "C07"}, not early, ref.where((early[0] if early else w.ev).node), fn,
                      f"{colname}: no break/continue/return precedes the write inside the loop body", f"early-exit:{colname}",
                      "skipping the write for some unknown coalition leaves a stale bound")
     lbs = [w for w in comp.writes if w.col == "LB" and w.loop_ev is not None]
@@ -398,7 +398,7 @@ def _check_computer(ob: _Ob, comp: Computer, is_sam: bool) -> None:
     if lbs:
         first = min(lbs, key=lambda w: w.ev.seq)
         if isinstance(first.loop_coll, Coll):
-            ob.check("B3", {"C01", "C02", "C08"}, first.loop_coll.order == "up", ref.where(first.loop_ev.node), fn,
+            ob.check("B3", {"C01", "C02", "C08", "C07"}, first.loop_coll.order == "up", ref.where(first.loop_ev.node), fn,
                      f"first LB loop iterates by increasing size (order={first.loop_coll.order})", "lb-order",
                      "the recurrence reads lower bounds of strictly smaller coalitions: out of size order they are stale entries")
     # ---- B5 phase order
@@ -417,7 +417,7 @@ def _check_computer(ob: _Ob, comp: Computer, is_sam: bool) -> None:
         for w in ubs:
             shared = [f for f in w.outer if any(f[1] == g[1] for lw in lbs for g in lw.outer)]
             ok = w.loop_ev.seq > last_lb_end and not shared and w.loop_uid not in {lw.loop_uid for lw in lbs}
-            ob.check("B5", {"C01", "C04", "C08"}, ok, ref.where(w.loop_ev.node), fn,
+            ob.check("B5", {"C01", "C04", "C08", "C07"}, ok, ref.where(w.loop_ev.node), fn,
                      "UB loop starts after every LB loop (and repetition) has ended", "ub-before-lb",
                      "the upper recurrence reads LB(T\\c) of arbitrary size: all lower bounds must be final")
     # ---- per-write value obligations
@@ -462,7 +462,7 @@ def _check_lb(ob: _Ob, comp: Computer, w: Write, is_sam: bool) -> None:
     for at0, later, undec, v in _alts(w):
         tag = "all" if (at0 and later) or (at0 and not w.outer) else ("phase0" if at0 else "later")
         if undec:
-            ob.und("B4", {"C01", "C04", "C08"}, where, fn, "branch condition on something other than the repetition counter")
+            ob.und("B4", {"C01", "C04", "C08", "C07"}, where, fn, "branch condition on something other than the repetition counter")
             continue
         if v[0] == "INIT":
             ob.check("B6s", {"C01", "C02", "C03", "C04", "C07", "C08"}, False, where, fn,
@@ -478,7 +478,7 @@ def _check_lb(ob: _Ob, comp: Computer, w: Write, is_sam: bool) -> None:
         if body[0] in ("LB", "KV", "UB", "VAL", "KNV") and is_sam:
             q = body[1]
             okq = isinstance(q, Coll) and not q.restricted
-            ob.check("B11b", {"C04"}, okq and body[0] == "LB" and q.classes <= {PSUPER, SELF} and q.classes >= {PSUPER, SELF}
+            ob.check("B11b", {"C04", "C07"}, okq and body[0] == "LB" and q.classes <= {PSUPER, SELF} and q.classes >= {PSUPER, SELF}
                      and q.known is None and red == "MAX", where, fn,
                      f"monotone closure LB(c) = MAX(LB(<PSUPER,SELF>)) [{tag}] (found {show_num(v)})", "closure",
                      "for a non-increasing game only supersets (and the row itself) give valid lower bounds; MIN or sub-coalitions are unsound, dropping SELF loosens below the superadditive bound")
@@ -487,7 +487,7 @@ def _check_lb(ob: _Ob, comp: Computer, w: Write, is_sam: bool) -> None:
                      "a candidate set that shrinks when knowledge grows lets a lower bound decrease")
             # closure must come after the split loop inside the same repetition
             splits = [x for x in comp.writes if x.col == "LB" and x is not w and x.outer and w.outer and x.outer[-1][1] == w.outer[-1][1]]
-            ob.check("B11b", {"C04", "C08"}, bool(splits) and all(x.ev.seq < w.ev.seq for x in splits), where, fn,
+            ob.check("B11b", {"C04", "C08", "C07"}, bool(splits) and all(x.ev.seq < w.ev.seq for x in splits), where, fn,
                      "closure loop follows the split loop in the same repetition (reads rows rewritten in this compute)", "closure-order",
                      "a closure that runs before the split loop reads stale rows of an earlier compute")
             continue
@@ -524,11 +524,11 @@ def _check_lb(ob: _Ob, comp: Computer, w: Write, is_sam: bool) -> None:
                  "a part that is not a sub-coalition does not split c")
         # B4 fresh reads (first phase / SA)
         if at0:
-            ob.check("B4", {"C01", "C08", "C04"}, P.classes <= {PSUB} | ({EMPTY} if False else set()), where, fn,
+            ob.check("B4", {"C01", "C08", "C04", "C07"}, P.classes <= {PSUB} | ({EMPTY} if False else set()), where, fn,
                      f"first-phase split set excludes the row itself and the empty coalition: {P.show()}", "lb-stale-self",
                      "reading the own row (SELF, or EMPTY whose complement is SELF) imports the stale bound of an earlier compute: unsound after un-reveal")
         if later and is_sam:
-            ob.check("B11a", {"C04"}, P.classes >= {PSUB, SELF}, where, fn,
+            ob.check("B11a", {"C04", "C07"}, P.classes >= {PSUB, SELF}, where, fn,
                      f"later repetitions include the row itself in the split set: {P.show()}", "lb-later-self",
                      "without SELF a repetition can overwrite a bound raised by the monotone closure: more repetitions would loosen")
         # B6 tightness
@@ -544,7 +544,7 @@ def _check_lb(ob: _Ob, comp: Computer, w: Write, is_sam: bool) -> None:
                  f"lower bound: MAX over a knowledge-independent split set [{tag}]", f"lb-polarity:{tag}",
                  "a knowledge filter inside the MAX makes the candidate set change non-monotonically with knowledge")
         if is_sam and at0 and not later:
-            ob.check("B11a", {"C04"}, red == "MAX" and P.classes == frozenset({PSUB}) and P.known is None and not P.restricted, where, fn,
+            ob.check("B11a", {"C04", "C07"}, red == "MAX" and P.classes == frozenset({PSUB}) and P.known is None and not P.restricted, where, fn,
                      "first repetition equals the plain superadditive lower recurrence (never looser than SA)", "sam-phase0-sa",
                      "a weaker first phase makes the approximation looser than the superadditive bounds")
 
@@ -564,10 +564,11 @@ def _check_ub(ob: _Ob, comp: Computer, w: Write, is_sam: bool) -> None:
             ob.und("B7s", {"C01", "C02", "C04", "C07"}, where, fn, f"UB value not understood: {show_num(v)}")
             continue
         if is_sam:
-            ob.check("B11c", {"C04"}, v[0] == "MIN2", where, fn,
+            ob.check("B11c", {"C04", "C07"}, v[0] == "MIN2", where, fn,
                      "upper = min(superadditive-style upper, min value of known sub-coalitions)", "sam-ub-min2",
                      "without the sub-coalition term an upper bound can exceed the value of a known sub-coalition")
         seen_super = seen_sub = False
+        parts = [("MIN", pt) if pt[0] in ("LB", "UB", "VAL", "KV", "KNV") and isinstance(pt[1], Coll) and pt[1].restricted else pt for pt in parts]
         for part in parts:
             if part[0] == "INIT":
                 ob.check("B7s", {"C01", "C02", "C03", "C04", "C07", "C08"}, False, where, fn,
@@ -613,24 +614,27 @@ def _check_ub(ob: _Ob, comp: Computer, w: Write, is_sam: bool) -> None:
                          "ignoring a known superset gives a sound but looser upper bound")
                 if T.restricted and T.unrecognised:
                     ob.und("B7", {"C02"}, where, fn, f"T restricted by an unrecognised predicate: {T.why_restricted}")
+                ob.check("B13", {"C07"}, not T.restricted, where, fn,
+                         f"the set of known supersets is not thinned out by a further predicate ({T.why_restricted})", "ub-polarity-restricted",
+                         "a filter that depends on which other coalitions are known (e.g. 'minimal known supersets only') removes candidates when knowledge grows: an upper bound can increase")
                 ob.check("B13", {"C07"}, red == "MIN" and T.known is True, where, fn,
                          "upper bound: MIN over a known-filtered set (grows with knowledge)", "ub-polarity",
                          "a MAX, or an unknown-filter, lets an upper bound increase when knowledge grows")
                 if is_sam:
-                    ob.check("B11c", {"C04"}, red == "MIN" and T.classes - {SELF} == {PSUPER} and T.known is True and not T.restricted
+                    ob.check("B11c", {"C04", "C07"}, red == "MIN" and T.classes - {SELF} == {PSUPER} and T.known is True and not T.restricted
                              and subt[0] in ("LB", "KV"), where, fn,
                              "first operand equals the superadditive upper recurrence with the final lower bounds", "sam-ub-sa",
                              "otherwise the approximation can be looser than the superadditive bounds")
             elif body[0] in ("LB", "UB", "VAL", "KV", "KNV") and isinstance(body[1], Coll) and is_sam:
                 seen_sub = True
                 S = body[1]
-                ob.check("B11c", {"C04"}, S.known is True, where, fn,
+                ob.check("B11c", {"C04", "C07"}, S.known is True, where, fn,
                          f"sub-coalition values are known-filtered: {S.show()}", "sam-sub-known",
                          "an unfiltered get_known_values() contains NaN; a bound of an unknown sub-coalition is not an upper bound")
-                ob.check("B11c", {"C04"}, S.classes <= {PSUB, EMPTY} and S.classes >= {PSUB} and not S.restricted, where, fn,
+                ob.check("B11c", {"C04", "C07"}, S.classes <= {PSUB, EMPTY} and S.classes >= {PSUB} and not S.restricted, where, fn,
                          f"all known proper sub-coalitions are candidates: {S.show()}", "sam-sub-set",
                          "for a non-increasing game only sub-coalitions bound v(c) from above; all of them must be used")
-                ob.check("B11c", {"C04"}, red == "MIN", where, fn, "MIN over known sub-coalition values", "sam-sub-min",
+                ob.check("B11c", {"C04", "C07"}, red == "MIN", where, fn, "MIN over known sub-coalition values", "sam-sub-min",
                          "MAX over sub-coalition values is not the tightest valid upper bound")
                 ob.check("B13", {"C07"}, red == "MIN" and S.known is True, where, fn,
                          "sub-coalition term: MIN over a known-filtered set", "sub-polarity", "")
@@ -639,7 +643,7 @@ def _check_ub(ob: _Ob, comp: Computer, w: Write, is_sam: bool) -> None:
         if not seen_super:
             ob.check("B7s", {"C01", "C02", "C04"}, False, where, fn, "upper bound uses the superset recurrence v(T) - LB(T\\c)", "ub-no-super", "")
         if is_sam:
-            ob.check("B11c", {"C04"}, seen_sub, where, fn, "upper bound uses the values of known sub-coalitions", "sam-ub-no-sub",
+            ob.check("B11c", {"C04", "C07"}, seen_sub, where, fn, "upper bound uses the values of known sub-coalitions", "sam-ub-no-sub",
                      "no upper bound may exceed the value of a known sub-coalition")
 
 
